@@ -60,6 +60,7 @@ def gen_patch_case(ch: Chooser) -> dict[str, Any]:
         case['fns'].append(k)
     case['initial_finalizers'] = ch.choice([[], [FIN], ['other.example.com/a', FIN], ['other.example.com/a']])
     case['foreign'] = ch.choice(['finalizer', 'spec-list', 'status-list', 'label', 'delete'])
+    case['no_status'] = ch.bool(0.3)   # a fresh object: no status stanza yet (a transformation may have to create it)
     return case
 
 
@@ -109,7 +110,9 @@ def _run_case(case: dict[str, Any], position: int, override: Optional[tuple[int,
     if case['initial_finalizers']:
         body0['metadata']['finalizers'] = list(case['initial_finalizers'])
     cluster.create(rd, 'default', body0, actor='user')
-    if case['status_subresource']:
+    if case.get('no_status'):
+        pass
+    elif case['status_subresource']:
         cluster.patch(rd, 'default', 'w', {'status': {'items': ['s0'], 'result': {'gone': 1}}},
                       content_type='application/merge-patch+json', subresource='status', actor='user')
     else:
@@ -282,7 +285,8 @@ def evaluate_a(plan: dict[str, Any]) -> Outcome:
                     oc.add('C08/lost-update', 'foreign-label', f"{label}: labels={meta.get('labels')}", case=case)
             if 'other.example.com/a' in case['initial_finalizers'] and 'other.example.com/a' not in fins:
                 oc.add('C08/lost-update', 'initial-foreign-finalizer', f"{label}: finalizers={fins}", case=case)
-            if 'u0' not in spec_items or 's0' not in status_items or (meta.get('annotations') or {}).get('user/note') != 'keep':
+            if 'u0' not in spec_items or ('s0' not in status_items and not case.get('no_status')) \
+                    or (meta.get('annotations') or {}).get('user/note') != 'keep':
                 oc.add('C08/lost-update', 'user-data', f"{label}: user data damaged: {spec_items} {status_items}", case=case)
             # status goes through the subresource exactly when there is one
             subs = [r[2] for r in obs['requests']]
